@@ -1,19 +1,23 @@
 ---------------------------- MODULE LiveQueryMC ----------------------------
 (***************************************************************************)
 (* Bounded exhaustive exploration of LiveQuery (C29, M): two interfaces,   *)
-(* three conversations (an IPv4 one whose source port the capture drops,   *)
-(* an IPv4 one in two source-port variants, an IPv6 one), packets in both  *)
-(* directions, write-outs and live queries at every position.              *)
+(* four conversations (an IPv4 one whose source port the capture drops,    *)
+(* an IPv4 one in two source-port variants, an IPv6 one, one between two   *)
+(* ephemeral ports with a segment that carries no orientation), packets in *)
+(* both directions, write-outs and live queries at every position.         *)
 (***************************************************************************)
 EXTENDS LiveQuery, CondDomain
 CONSTANTS MaxPackets, MaxWriteouts
 
 MCIfaces == {"lq0", "lq1"}
-MCPkts == {[i |-> "lq0", c |-> 1,  v |-> 1, d |-> "in",  sz |-> 3],
-           [i |-> "lq0", c |-> 9,  v |-> 1, d |-> "in",  sz |-> 5],
-           [i |-> "lq0", c |-> 9,  v |-> 2, d |-> "out", sz |-> 7],
-           [i |-> "lq1", c |-> 13, v |-> 1, d |-> "out", sz |-> 11],
-           [i |-> "lq1", c |-> 1,  v |-> 1, d |-> "in",  sz |-> 13]}
+MCPkts == {[i |-> "lq0", c |-> 1,  v |-> 1, d |-> "in",  sz |-> 3,  k |-> "open"],
+           [i |-> "lq0", c |-> 9,  v |-> 1, d |-> "in",  sz |-> 5,  k |-> "open"],
+           [i |-> "lq0", c |-> 9,  v |-> 2, d |-> "out", sz |-> 7,  k |-> "open"],
+           [i |-> "lq1", c |-> 13, v |-> 1, d |-> "out", sz |-> 11, k |-> "open"],
+           [i |-> "lq1", c |-> 1,  v |-> 1, d |-> "in",  sz |-> 13, k |-> "open"],
+           \* a conversation between two ephemeral ports: its handshake and a later segment
+           [i |-> "lq0", c |-> 25, v |-> 1, d |-> "in",  sz |-> 17, k |-> "open"],
+           [i |-> "lq0", c |-> 25, v |-> 1, d |-> "out", sz |-> 19, k |-> "cont"]}
 MCQueries == {
   [ifs |-> MCIfaces, attrs |-> AllAttrs, cond |-> NoCond],
   [ifs |-> {"lq0"},  attrs |-> {"sip"},  cond |-> NoCond],
